@@ -248,7 +248,11 @@ fn parse_hunk_header(line: &str) -> Option<ParsedHunkHeader> {
                         .ok()?,
                 ))
             })
-            .collect::<Option<Vec<_>>>()?;
+            .collect::<Option<Vec<(usize, usize)>>>()?;
+        if line_numbers_and_hunk_lengths.is_empty() {
+            // e.g. "@@ foo @@": callers rely on at least one file coordinate
+            return None;
+        }
         let code_fragment = caps[2].to_string();
         Some(ParsedHunkHeader {
             code_fragment,
